@@ -4,6 +4,11 @@ import (
 	"context"
 	"encoding/json"
 	"fmt"
+	"os"
+	"os/exec"
+	"regexp"
+	"strconv"
+	"strings"
 	"syscall"
 	"testing"
 	"time"
@@ -61,12 +66,77 @@ func lineFor(t *rapid.T, o ExpOutput, label string) string {
 	} else if rapid.Bool().Draw(t, label+".extra") {
 		m["n"] = float64(rapid.IntRange(0, 5).Draw(t, label+".n"))
 	}
+	long := 7
+	if o.Inverted {
+		long = 1 // a forbidden message that is also a long line
+	}
+	if rapid.IntRange(0, long).Draw(t, label+".long") == 0 {
+		// a long line: longer than the buffers line readers start with
+		// (4096 bytes, 64 KiB); kept as a marker in the case
+		m["pad"] = fmt.Sprintf("@@PAD:%d@@", rapid.SampledFrom([]int{4100, 9000, 20000}).Draw(t, label+".pad"))
+	}
 	js, _ := json.Marshal(m)
 	return string(js)
 }
 
+var padMarker = regexp.MustCompile(`@@PAD:(\d+)@@`)
+
+// expanded returns the case with the pad markers of its lines replaced
+// by that many characters.
+//
+// The total is kept under 40000 bytes: the tool stops reading the
+// subprocess' output once the last step is satisfied and then waits for
+// the subprocess to exit, so more unread output than a pipe holds (64 KiB)
+// blocks `cat` - and the tool - for ever.  That is a limitation of the tool
+// which C19 does not speak about (a session that hangs has not passed).
+func (c ExpCase) expanded() ExpCase {
+	out := ExpCase{}
+	budget := 40000
+	for _, st := range c.Steps {
+		ns := ExpStep{Outputs: st.Outputs}
+		for _, l := range st.Lines {
+			ns.Lines = append(ns.Lines, padMarker.ReplaceAllStringFunc(l, func(m string) string {
+				n, _ := strconv.Atoi(padMarker.FindStringSubmatch(m)[1])
+				if n > budget {
+					return "x"
+				}
+				budget -= n
+				return strings.Repeat("x", n)
+			}))
+		}
+		out.Steps = append(out.Steps, ns)
+	}
+	return out
+}
+
 func genExp(t *rapid.T) ExpCase {
 	c := ExpCase{}
+	if rapid.IntRange(0, 9).Draw(t, "scenario") == 0 {
+		// built, not hoped for: a forbidden message (sometimes a long
+		// line) arrives before the messages that satisfy the step
+		st := ExpStep{}
+		good := genExpOutput(t, "sc.good", false)
+		good.Guard = nil
+		bad := genExpOutput(t, "sc.bad", true)
+		bad.Guard = nil
+		st.Outputs = []ExpOutput{good, bad}
+		if rapid.Bool().Draw(t, "sc.second") {
+			g2 := genExpOutput(t, "sc.good2", false)
+			g2.Guard = nil
+			st.Outputs = append(st.Outputs, g2)
+		}
+		for i := rapid.IntRange(0, 2).Draw(t, "sc.noise"); i > 0; i-- {
+			st.Lines = append(st.Lines, rapid.SampledFrom([]string{"not json", "{broken", "42"}).Draw(t, fmt.Sprintf("sc.n%d", i)))
+		}
+		st.Lines = append(st.Lines, lineFor(t, bad, "sc.badline"))
+		for i, o := range st.Outputs {
+			if !o.Inverted {
+				st.Lines = append(st.Lines, lineFor(t, o, fmt.Sprintf("sc.l%d", i)))
+			}
+		}
+		c.Steps = append(c.Steps, st)
+		return c
+	}
 	ns := rapid.IntRange(1, 3).Draw(t, "steps")
 	// all expectations first, so that a step's lines can also serve a
 	// later step (left-overs in the stream)
@@ -97,6 +167,15 @@ func genExp(t *rapid.T) ExpCase {
 				o := st.Outputs[rapid.IntRange(0, len(st.Outputs)-1).Draw(t, ll+".oi")]
 				if o.Inverted && rapid.IntRange(0, 2).Draw(t, ll+".skipinv") > 0 {
 					o = st.Outputs[0]
+				}
+				if li == 0 && rapid.IntRange(0, 2).Draw(t, ll+".invfirst") == 0 {
+					// a forbidden message right at the start of the step
+					for _, cand := range st.Outputs {
+						if cand.Inverted {
+							o = cand
+							break
+						}
+					}
 				}
 				st.Lines = append(st.Lines, lineFor(t, o, ll))
 			case k == 6 && len(st.Lines) > 0:
@@ -199,6 +278,14 @@ func reap() {
 }
 
 func checkExp(c ExpCase) (v ev.Verdict) {
+	for _, st := range c.Steps {
+		for _, l := range st.Lines {
+			if strings.Contains(l, "@@PAD:") {
+				v.Class("long-line")
+			}
+		}
+	}
+	c = c.expanded()
 	s := &expect.Session{Interpreters: sm.Interpreters(), DefaultTimeout: 150 * time.Millisecond}
 	for _, st := range c.Steps {
 		iop := expect.IO{}
@@ -217,7 +304,24 @@ func checkExp(c ExpCase) (v ev.Verdict) {
 	ctx, cancel := context.WithTimeout(context.Background(), 10*time.Second)
 	defer cancel()
 	var err error
-	if p := trapPanic(func() { err = s.Run(ctx, "", "cat") }); p != "" {
+	var p string
+	ran := make(chan struct{})
+	go func() {
+		defer close(ran)
+		p = trapPanic(func() { err = s.Run(ctx, "", "cat") })
+	}()
+	select {
+	case <-ran:
+	case <-time.After(30 * time.Second):
+		// the tool waits for a subprocess that cannot exit (see
+		// expanded); not a verdict: free it and move on
+		exec.Command("pkill", "-P", strconv.Itoa(os.Getpid()), "cat").Run()
+		<-ran
+		reap()
+		v.Skip, v.SkipReason = true, "tool-waits-for-blocked-subprocess"
+		return
+	}
+	if p != "" {
 		v.Failf("Session.Run panicked: %s", p)
 		return
 	}
@@ -264,7 +368,7 @@ func trapPanic(f func()) (p string) {
 }
 
 func TestC19Expect(t *testing.T) {
-	ev.Run(t, ev.Opts{Property: "C19", Name: "expect", Quick: 400, Thorough: 20000, ShrinkTime: "15s",
+	ev.Run(t, ev.Opts{Property: "C19", Name: "expect", Quick: 800, Thorough: 20000, ShrinkTime: "15s",
 		Rule: "sessions of 1-3 steps with 1-4 outputs (pattern, optional accepting/rejecting/failing guard, inverted) run against the subprocess `cat`, which echoes each step's inputs as the emitted stream (instances, duplicates, near misses, non-JSON noise); soundness: if Session.Run returns nil, the documented meaning of the session must hold (every expectation independently satisfied by the lines available to its step, no forbidden output before that); non-trivial = the model says the session must fail (expectation never satisfied, rejecting guard, forbidden output hit)"},
 		genExp, checkExp)
 }
